@@ -447,6 +447,14 @@ impl Stage for C05 {
             match run_child(job) {
                 ChildResult::Ok(j) => {
                     out.count("child_runs", 1);
+                    if let Some(m) = j["paths"].as_object() {
+                        for (k, v) in m {
+                            let n = v.as_u64().unwrap_or(0);
+                            if n > 0 {
+                                out.count(format!("path:{k}"), n);
+                            }
+                        }
+                    }
                     let rows: BTreeMap<String, String> = serde_json::from_value(j["rows"].clone()).unwrap_or_default();
                     let error = j["error"].as_str().map(|s| s.to_string());
                     let obs = Observed { rows, error };
@@ -602,7 +610,7 @@ pub fn child(kind: &str, payload: &serde_json::Value) -> Option<serde_json::Valu
     let c: Case = serde_json::from_value(payload["case"].clone()).ok()?;
     let threads = payload["threads"].as_u64().unwrap_or(1) as usize;
     let obs = execute(&c, threads);
-    Some(serde_json::json!({"rows": obs.rows, "error": obs.error}))
+    Some(serde_json::json!({"rows": obs.rows, "error": obs.error, "paths": crate::runner::path_counters()}))
 }
 
 fn configs(t: Tier) -> Vec<Config> {
